@@ -258,6 +258,12 @@ def run_cases(wdir, log, timeout):
         running = still
         if running:
             time.sleep(0.05)
+    for ext in ("vo", "vok", "vos", "glob"):
+        for f in glob.glob(os.path.join(wdir, "Cases_*." + ext)) + glob.glob(os.path.join(wdir, ".Cases_*.aux")):
+            try:
+                os.remove(f)
+            except OSError:
+                pass
     return sorted(mism), errs
 
 
